@@ -343,7 +343,7 @@ pub fn run(tier: Tier) -> i32 {
     let mut rep = Report::new("C06", tier);
     let g = Grammar::new();
     let tok_len = tier.pick(3, 4);
-    let str_len = tier.pick(3, 5);
+    let str_len = tier.pick(3, 4);
     rep.bound("token_alphabet", full_alphabet().len());
     rep.bound("token_sequence_length", tok_len);
     rep.bound("char_alphabet", CHARS.len());
